@@ -30,6 +30,11 @@ type doCall struct {
 	Undeclared bool   `json:"undeclared"`
 	Retries    int    `json:"retries"`
 	Objects    bool   `json:"objects"` // also pass data objects (declared "out", undeclared "zzobj")
+	// F: value written to the float result "fr" (declared iff descriptor.FloatRes)
+	F float64 `json:"f,omitempty"`
+	// OmitX: the answer leaves result "x" out although other results are supplied:
+	// the variable keeps the value it has
+	OmitX bool `json:"omitX,omitempty"`
 }
 
 // attempt is the history of Do calls for one request of the activity.
@@ -52,6 +57,8 @@ type descriptor struct {
 	// is then requested again - with task inputs (olive properties resolved
 	// from the variables) that show what the previous answer stored
 	LoopBack bool `json:"loopBack,omitempty"`
+	// FloatRes: the activity also declares the float result "fr"
+	FloatRes bool `json:"floatRes,omitempty"`
 }
 
 type built struct {
@@ -66,6 +73,9 @@ func build(d descriptor) *built {
 	a := b.Add(gen.KTask)
 	a.TaskKind = d.TaskKind
 	a.Results = append([]string(nil), d.Declared...)
+	if d.FloatRes {
+		a.Results = append(a.Results, "fr")
+	}
 	a.Props = []string{"x:integer", "sel:integer"}
 	if d.DeclOut {
 		a.DataOutputs = []string{"out"}
@@ -112,7 +122,10 @@ func (c doCall) options() []bpmn.DoOption {
 	res := map[string]any{}
 	if c.Kind == "ok" {
 		res["sel"] = c.Sel
-		res["x"] = c.X
+		if !c.OmitX {
+			res["x"] = c.X
+		}
+		res["fr"] = c.F
 		if c.Undeclared {
 			res["zz_undeclared"] = int64(99)
 		}
@@ -185,8 +198,11 @@ func apply(d descriptor, bt *built, s state, c doCall) (state, string) {
 		if declared("sel") {
 			n.vars["sel"] = c.Sel
 		}
-		if declared("x") {
+		if declared("x") && !c.OmitX {
 			n.vars["x"] = c.X
+		}
+		if d.FloatRes {
+			n.vars["fr"] = c.F
 		}
 		if c.Objects && d.DeclOut {
 			n.objs["out"] = c.X
@@ -237,7 +253,7 @@ func runCase(d descriptor) *result {
 		perturb.Install(d.Perturb, 70, map[string]bool{"task.do": true})
 		defer perturb.Remove()
 	}
-	in, err := drive.New(r.XML, drive.Options{Vars: map[string]any{"sel": int64(0), "x": int64(0)}})
+	in, err := drive.New(r.XML, drive.Options{Vars: map[string]any{"sel": int64(0), "x": int64(0), "fr": float64(0.5)}})
 	if err != nil {
 		r.Symptom, r.Detail = "construct", err.Error()
 		return r
@@ -258,7 +274,7 @@ func runCase(d descriptor) *result {
 		r.Inconcl = err.Error()
 		return r
 	}
-	st := state{vars: map[string]any{"sel": int64(0), "x": int64(0)}, objs: map[string]any{}}
+	st := state{vars: map[string]any{"sel": int64(0), "x": int64(0), "fr": float64(0.5)}, objs: map[string]any{}}
 	cur := in.NewTasks()
 	if !reflect.DeepEqual(taskIDs(cur), []string{bt.A}) {
 		return fail("first-request", fmt.Sprintf("requests after start %v, want [%s]", taskIDs(cur), bt.A), nil)
@@ -513,11 +529,13 @@ func drawCall(rt *rapid.T, allowRetry bool) doCall {
 		kinds = append(kinds, "retry", "retry")
 	}
 	return doCall{Kind: rapid.SampledFrom(kinds).Draw(rt, "kind"), Sel: int64(rapid.IntRange(1, 2).Draw(rt, "sel")), X: int64(rapid.IntRange(3, 9).Draw(rt, "x")),
-		Undeclared: rapid.Bool().Draw(rt, "undeclared"), Retries: rapid.IntRange(0, 3).Draw(rt, "retries"), Objects: rapid.Bool().Draw(rt, "objects")}
+		Undeclared: rapid.Bool().Draw(rt, "undeclared"), Retries: rapid.IntRange(0, 3).Draw(rt, "retries"), Objects: rapid.Bool().Draw(rt, "objects"),
+		F:     rapid.SampledFrom([]float64{1.5, -0.25, 2.5e-7, 0.7500004, 1e21, 123456789.123456789, 5e-324, -3}).Draw(rt, "f"),
+		OmitX: rapid.IntRange(0, 3).Draw(rt, "omitX") == 0}
 }
 
 func drawDescriptor(rt *rapid.T) descriptor {
-	d := descriptor{TaskKind: rapid.SampledFrom(gen.TaskKinds).Draw(rt, "taskKind"), DeclOut: rapid.Bool().Draw(rt, "declOut")}
+	d := descriptor{TaskKind: rapid.SampledFrom(gen.TaskKinds).Draw(rt, "taskKind"), DeclOut: rapid.Bool().Draw(rt, "declOut"), FloatRes: rapid.Bool().Draw(rt, "floatRes")}
 	switch rapid.IntRange(0, 3).Draw(rt, "declared") {
 	case 0:
 		d.Declared = []string{"sel", "x"}
